@@ -14,7 +14,7 @@ def tl64 (x : Float) : String := "~" ++ sh64 x
 def showCells (m : List (List Nat)) : String := showList2 toString m
 
 /-- everything the harness reads off a `ConfusionMatrix` -/
-def cmLine {L} (showL : L → String) (r : Option (List L × List (List Nat))) : String :=
+def cmLine {L} (showL : L → String) (beta : Float32) (r : Option (List L × List (List Nat))) : String :=
   match r with
   | none => "err MismatchedShapes"
   | some (cs, m) =>
@@ -26,25 +26,31 @@ def cmLine {L} (showL : L → String) (r : Option (List L × List (List Nat))) :
     s!"prec={sh32 (precision m)} rec={sh32 (recall m)} f1={sh32 (fScore 1 m)} fh={sh32 (fScore half m)} f2={sh32 (fScore two m)} " ++
     s!"mcc={sh32 (mcc m)} ova={showList3 toString ova} ovo={showList3 toString ovo} " ++
     s!"ovap={showList (fun s => sh32 (precision s)) ova} ovar={showList (fun s => sh32 (recall s)) ova} " ++
-    s!"ovaf={showList (fun s => sh32 (fScore 1 s)) ova}"
+    s!"ovaf={showList (fun s => sh32 (fScore 1 s)) ova} fb={sh32 (fScore beta m)} " ++
+    s!"ovop={showList (fun s => sh32 (precision s)) ovo} ovor={showList (fun s => sh32 (recall s)) ovo}"
 
 def handleCm (toks : List String) : Option String := do
   let ty ← arg toks "ty"
+  let beta ← (arg toks "beta").bind parseF32
   if ty == "n" then
     let p ← argNats toks "p"; let t ← argNats toks "t"
-    some (cmLine toString (confusion p t))
+    some (cmLine toString beta (confusion p t))
   else if ty == "s" then
     let p ← (arg toks "p").bind (parseList hexDecode)
     let t ← (arg toks "t").bind (parseList hexDecode)
-    some (cmLine hexEncode (confusion p t))
+    some (cmLine hexEncode beta (confusion p t))
   else none
 
-/-- `CountedTargets` receiver whose cached label set is `lp` -/
+/-- `CountedTargets` receiver (bare or inside a dataset, `form=k`) whose cached label set is `lp` -/
 def handleCmStale (toks : List String) : Option String := do
+  let _ ← argNat toks "form"
   let lp ← argNats toks "lp"; let p ← argNats toks "p"; let t ← argNats toks "t"
-  some (cmLine toString (confusionWith lp p t))
+  some (cmLine toString 1 (confusionWith lp p t))
 
-def eps32 : Float32 := 1e-10
+/-- the group test of the repaired `roc` is `*s != s0`: `isFresh 0` (theorem
+`roc_group_test_is_inequality`; on finite floats `0 < |s - s0|` iff `s != s0`, subtraction of distinct
+floats never rounds to zero) -/
+def eps32 : Float32 := 0
 def f32Epsilon : Float32 := Float32.ofBits 0x34000000
 
 def parseBools (toks : List String) (key : String) : Option (List Bool) := do
@@ -108,20 +114,23 @@ def handleReg (exact : Bool) (toks : List String) : Option String := do
     some (regLine exact sh32 tl32 ((ca.zip cb).map fun (x, y) => regScores (1e-10 : Float32) (f x) (f y)))
   else none
 
-def sqDist {α} [Add α] [Sub α] [Mul α] [OfNat α 0] (x y : List α) : α :=
-  sumS (List.zipWith (fun a b => (a - b) * (a - b)) x y)
-
 /-- `w = 32`: the records are `f32` (the request carries values that are exact in f32) -/
 def handleSil (w : Nat) (toks : List String) : Option String := do
   let x ← argF64s2 toks "x"; let l ← argNats toks "l"
   if x.length ≠ l.length then none
   if w = 32 then
     let x := x.map fun r => r.map Float.toFloat32
-    let d := x.map fun xi => x.map fun xj => Float32.sqrt (sqDist xi xj)
-    some s!"ok {tl32 (silhouette d l)}"
+    some s!"ok {tl32 (silhouettePts x l)}"
   else
-    let d := x.map fun xi => x.map fun xj => Float.sqrt (sqDist xi xj)
-    some s!"ok {tl64 (silhouette d l)}"
+    some s!"ok {tl64 (silhouettePts x l)}"
+
+/-- stale label counts: the `CountedTargets` were counted on `cl`, the targets are `l` -/
+def handleSilStale (toks : List String) : Option String := do
+  let x ← argF64s2 toks "x"; let l ← argNats toks "l"; let cl ← argNats toks "cl"
+  if x.length ≠ l.length then none
+  match silhouetteC (labelCache cl) (distMatrix x) l with
+  | none => some "panic"
+  | some v => some s!"ok {tl64 v}"
 
 def handlePearson (w : Nat) (toks : List String) : Option String := do
   let x ← argF64s2 toks "x"; let p ← argNat toks "p"
@@ -150,6 +159,7 @@ def handle (toks : List String) : String :=
     | "sil" :: rest => handleSil 64 rest
     | "sil32" :: rest => handleSil 32 rest
     | "silf" :: rest => withForm rest (handleSil 64)
+    | "sils" :: rest => handleSilStale rest
     | "pearson" :: rest => handlePearson 64 rest
     | "pearson32" :: rest => handlePearson 32 rest
     | "pearsonf" :: rest => withForm rest (handlePearson 64)
